@@ -33,7 +33,10 @@ fn gen_model(r: &mut Rng) -> LinearModel {
         let cmp = match r.below(5) { 0 | 1 => Comparison::LessOrEqual, 2 => Comparison::GreaterOrEqual, 3 => Comparison::Equal, _ => Comparison::Less };
         let rhs = *r.pick(&[0.0, 1.0, 2.5, -1.0, 4.0, -2.0, 1e-7, 123456.0, -0.5]);
         let has_cap = m.constraints().iter().any(|c| c.name() == "cap");
-        match r.below(5) { 0 => m.add_named_constraint(c, cmp, rhs, &format!("c{}", j + 2)), 1 if !has_cap => m.add_named_constraint(c, cmp, rhs, "cap"), 2 => m.add_named_constraint(c, cmp, rhs, &format!("r{j}")), _ => m.add_constraint(c, cmp, rhs) }
+        // user names of the generated form c<k>, for any k up to the number of rows: before AND after the unnamed row they clash with
+        let ck = format!("c{}", 1 + r.below(nr + 1));
+        let ck_free = !m.constraints().iter().any(|c| c.name() == ck);
+        match r.below(6) { 5 if ck_free => m.add_named_constraint(c, cmp, rhs, &ck), 0 if !m.constraints().iter().any(|k| k.name() == format!("c{}", j + 2)) => m.add_named_constraint(c, cmp, rhs, &format!("c{}", j + 2)), 1 if !has_cap => m.add_named_constraint(c, cmp, rhs, "cap"), 2 => m.add_named_constraint(c, cmp, rhs, &format!("r{j}")), _ => m.add_constraint(c, cmp, rhs) }
     }
     let obj: Vec<f64> = (0..nv).map(|_| *r.pick(&coefs)).collect();
     let dir = match r.below(5) { 0 | 1 => OptimizationType::Min, 2 | 3 => OptimizationType::Max, _ => OptimizationType::Satisfy };
